@@ -912,6 +912,7 @@ const smtPrelude = `(set-option :produce-models true)
 (declare-fun ssub (Str Int Int) Str)
 (declare-fun sbyte (Str Int) Int)
 (declare-fun sless (Str Str) Bool)
+(assert (forall ((a Str) (b Str)) (! (= (ssub (sconcat a b) 0 (slen a)) a) :pattern ((ssub (sconcat a b) 0 (slen a))))))
 (declare-fun ix (Int Int) Int)
 (assert (forall ((o Int) (i Int)) (! (= (ix o i) (+ o i)) :pattern ((ix o i)))))
 (assert (forall ((s Str)) (! (and (<= 0 (slen s)) (<= (slen s) 4611686018427387904) (= (= (slen s) 0) (= s strEmpty))) :pattern ((slen s)))))
